@@ -55,6 +55,9 @@ func (v Val) String() string {
 	case 's':
 		return "s" + strconv.Quote(v.S)
 	case 't':
+		if v.S != "" && v.S != "local" {
+			return fmt.Sprintf("t%dz%dn%s", v.I, v.Off, v.S)
+		}
 		return fmt.Sprintf("t%dz%d", v.I, v.Off)
 	case 'c':
 		return "c" + strconv.FormatInt(v.I, 10)
